@@ -647,7 +647,7 @@ func requestLiteral(info *types.Info, res *resolver, e ast.Expr) *ast.CompositeL
 	// one defining statement)
 	if obj := objOf(info, x); obj != nil && res.count[obj] == 3 {
 		var found *ast.CompositeLit
-		ast.Inspect(res.l.declAt(obj.Pos()), func(n ast.Node) bool {
+		ast.Inspect(res.l.declOf(obj), func(n ast.Node) bool {
 			if as, ok := n.(*ast.AssignStmt); ok && len(as.Lhs) == len(as.Rhs) {
 				for i, l := range as.Lhs {
 					if objOf(info, l) == obj {
